@@ -65,10 +65,10 @@ def recv_fn(name, kind, err_wrap, props):
                    "final(o).recvs == old(o).recvs.push((self.os_receiver.rid, %s))" % kind, props),
             Clause("ipc.IpcReceiver.%s/ensures.value_is_decoded_from_exactly_what_was_received" % name,
                    "r matches Ok(v) ==> final(o).got is Some && final(o).decodes == old(o).decodes + 1\n"
-                   "&& value_src(v) == ((final(o).got->0).0, wrapped((final(o).got->0).1), wrapped((final(o).got->0).2))", ["C01", "C04", "C05"] + props),
+                   "&& value_src(v) == ((final(o).got->0).0, wrapped((final(o).got->0).1), wrapped((final(o).got->0).2))", ["C01", "C04", "C05", "C16"] + props),
             Clause("ipc.IpcReceiver.%s/ensures.error_is_the_platforms_or_a_decode_error" % name,
                    "r matches Err(e) ==> (final(o).failed == old(o).failed + 1 && final(o).decodes == old(o).decodes && %s)\n"
-                   "|| (final(o).failed == old(o).failed && final(o).decodes == old(o).decodes + 1 && %s)" % (err_wrap[0], err_wrap[1]), props),
+                   "|| (final(o).failed == old(o).failed && final(o).decodes == old(o).decodes + 1 && %s)" % (err_wrap[0], err_wrap[1]), ["C16"] + props),
             Clause("ipc.IpcReceiver.%s/ensures.frame" % name, "same_oneshot(*old(o), *final(o))"),
         ],
         rules=[AppendArg("B74", r"self\.os_receiver\.%s\(" % name, OG, "platform receive (units U3/K4) with the `?` conversion (unit U4b) folded in", min_count=1)] + ETA,
@@ -93,7 +93,7 @@ UNIT = Unit(
     prelude=["units/common.rs", "units/u10_oneshot.rs"],
     groups=[("impl OpaqueIpcMessage", [msg_new]), ("impl<T> IpcOneShotServer<T>", [server_new, accept]), ("impl<T> IpcSender<T>", [connect]),
             ("impl<T> IpcReceiver<T>", [ipc_recv, ipc_try_recv, ipc_try_recv_timeout]), ("impl IpcBytesSender", [bytes_send])],
-    props=["C08", "C01", "C02", "C03", "C04", "C05", "C09", "C10"],
+    props=["C08", "C01", "C02", "C03", "C04", "C05", "C09", "C10", "C16"],
     kernel_clauses=[
         "the platform one-shot server, accept and connect behave as specified in unit U9; OpaqueIpcMessage::to as in unit U7",
         "`?`'s From<UnixError> conversions (unit U4b for the error kinds) are folded into the platform stubs",
